@@ -90,15 +90,24 @@ Section ASSOC_LEMMAS.
     intros HT H. destruct (look_kill_cases p l k) as [[Heq Hp]|Heq]; rewrite Heq; auto.
   Qed.
 
+  Lemma look_In (l : list (K * aval)) k :
+    look keqb l k = ATop \/ exists e, In e l /\ fst e = k.
+  Proof.
+    induction l as [|[k' v] t IH]; simpl.
+    - left; reflexivity.
+    - destruct (keqb k' k) eqn:Hk.
+      + right. exists (k', v). split; [left; reflexivity|]. apply keqb_eq. exact Hk.
+      + destruct IH as [IH|(e & Hin & He)]; [left; exact IH|].
+        right. exists e. split; [right; exact Hin|exact He].
+  Qed.
+
   Lemma le_assoc_sound (a b : list (K * aval)) k :
     le_assoc keqb a b = true -> le_val (look keqb a k) (look keqb b k) = true.
   Proof.
-    unfold le_assoc. induction b as [|[k' w] t IH]; simpl; intros H.
-    - reflexivity.
-    - apply andb_true_iff in H. destruct H as [H1 H2].
-      destruct (keqb k' k) eqn:Hk.
-      + apply keqb_eq in Hk. subst k'. exact H1.
-      + apply IH. exact H2.
+    unfold le_assoc. intros H. rewrite forallb_forall in H.
+    destruct (look_In b k) as [Ht|(e & Hin & He)].
+    - rewrite Ht. reflexivity.
+    - specialize (H e Hin). rewrite He in H. exact H.
   Qed.
 End ASSOC_LEMMAS.
 
